@@ -13,7 +13,16 @@ All theorems are about the functions of `FeatModel/Model/MG.lean` that `drv_c09`
 `kernel/solver/multigrid.hpp`.  `last` is the coarse level, `top ≤ last` the top level, `L = last - top`; level 0 is
 the finest level.  No bound on the number of levels anywhere.
 
-Not proved here (measured in the thorough tier only): the level-independent residual reduction on Poisson problems.
+Not proved here:
+* the level-independent residual reduction on Poisson problems (measured in the thorough tier only; the two-grid
+  algebra `C09.twogrid_cgc_projection` is about the projection property, not the rate);
+* in the adaptive modes `mgRef` hands the *updated* defect `d - ω F(A c)` to the post-smoother; that it equals the
+  recomputed residual is proved per step under vector-size hypotheses (`C09.step_defect_is_residual`), not globally
+  with a well-formedness predicate carried through the recursion (the C++ and Python references recompute it);
+* `C09.textbook_linear` is abstract (modules); for the executed `Rat` instance linearity is `C09.textbook_additive_rat`
+  + `C09.textbook_homogeneous`; "`refLevel L` satisfies `LinLevel`" is not stated (lists of varying length are no module);
+* filter calls are not part of the compared call log (smoother, coarse solver, transfer and matrix applies are);
+* the bit-for-bit homogeneity at double is evidence (stream `double-homogeneity`), the theorem is the exact fact.
 -/
 open FeatModel.MG
 
@@ -235,6 +244,58 @@ theorem C09.textbook_homogeneous (levels : Array Level) (k : Cycle) (cgc : Cgc) 
   injection e2 with _ hy
   rw [hy, ← hx]
 
+/-- Additivity of the executed textbook operator at `Rat` with the fixed coarse grid correction (with
+    `C09.textbook_homogeneous`: it is a linear map of the defect), for every cycle, level count and sub-range. -/
+theorem C09.textbook_additive_rat (levels : Array Level) (k : Cycle) (top crs : Nat) (h : top ≤ crs)
+    (d1 d2 : Vec) (hlen : d1.length = d2.length) :
+    applyRef levels k .fixed top crs (vadd d1 d2) =
+      vadd (applyRef levels k .fixed top crs d1) (applyRef levels k .fixed top crs d2) := by
+  have ho : crs < ({ lv := Array.replicate (crs + 1) {} } : Obj).lv.size := by simp
+  obtain ⟨log, x1, x2, e1, e2, e3⟩ := C09.cycle_linear_additive levels k top crs h d1 d2 hlen _ _ _ ho ho ho
+  obtain ⟨_, t1⟩ := C09.apply_eq_textbook levels k .fixed top crs h d1 _ ho
+  obtain ⟨_, t2⟩ := C09.apply_eq_textbook levels k .fixed top crs h d2 _ ho
+  obtain ⟨_, t3⟩ := C09.apply_eq_textbook levels k .fixed top crs h (vadd d1 d2) _ ho
+  rw [t1] at e1
+  rw [t2] at e2
+  rw [t3] at e3
+  injection e1 with _ h1
+  injection e2 with _ h2
+  injection e3 with _ h3
+  rw [h3, ← h1, ← h2]
+
+/-! ## every reachable object: the size hypothesis discharged, and nothing above the top level is touched -/
+
+/-- The hypothesis `crs < o.lv.size` of the data-layer theorems holds for every state the driver (and FEAT) can
+    reach: an object starts with one level-vector record per level (`o.lv.size = nl`, `init_symbolic`), a level range
+    is used only if the constructor / `set_levels` check `levelRange` accepts it (otherwise the modelled abort
+    `ABORT:range`), an accepted range satisfies `top ≤ crs < nl`, and an application keeps `lv.size`.  Hence, by
+    induction over any history of applications with any cycles, ranges and modes: the outcome is the textbook
+    operator applied to the defect, and the invariant `lv.size = nl` is re-established. -/
+theorem C09.reachable_apply_eq_textbook (levels : Array Level) (nl : Nat) (k : Cycle) (cgc : Cgc) (top crs : Int)
+    (t c : Nat) (hr : levelRange nl top crs = some (t, c)) (d : Vec) (o : Obj) (ho : o.lv.size = nl) :
+    (∃ log, (applyOnce levels k cgc t c d o).1 = .ok log (applyRef levels k cgc t c d)) ∧
+    (applyOnce levels k cgc t c d o).2.lv.size = nl := by
+  obtain ⟨h1, h2⟩ := levelRange_spec nl top crs t c hr
+  exact ⟨C09.apply_eq_textbook levels k cgc t c h1 d o (by omega), by rw [applyOnce_size, ho]⟩
+
+/-- Sub-ranges with `top > 0`: one application leaves every vector of every level finer than the top level
+    untouched (all five vectors of levels `j < top`), for all three cycles and all modes.  (A peak loop that ran down
+    to level 0 instead of `top` would violate this.) -/
+theorem C09.levels_above_top_untouched (levels : Array Level) (k : Cycle) (cgc : Cgc) (top crs : Nat)
+    (h : top ≤ crs) (d : Vec) (o : Obj) (ho : crs < o.lv.size) (j : Nat) (hj : j < top) :
+    (applyOnce levels k cgc top crs d o).2.lv.getD j default = o.lv.getD j default := by
+  obtain ⟨cnt, e⟩ := C09.apply_eq_reference levels k cgc top crs h d o
+  rw [e]
+  have hf := cycleRec_frame levels k cgc top crs h (startState o top d) (by rw [startState_size]; exact ho) j hj
+  have hs : (startState o top d).get j = o.lv.getD j default := by
+    unfold startState
+    simp only []
+    rw [get_put_ne _ _ _ _ (by omega)]
+    rfl
+  show (exec (step { levels := levels, cgc := cgc, crsLvl := crs }) (cycleRec k crs top)
+    (startState o top d)).get j = _
+  rw [hf, hs]
+
 /-! ## absent smoothers: the `nullptr` code paths -/
 
 /-- No pre-smoother (or a restriction that continues from an inner peak): `format` + copy resp. nothing at all. -/
@@ -438,6 +499,12 @@ theorem C09.def_shortcut (L : Level) (rhs sol c : Vec) (w : Rat) (hc : c.length 
 /-! ## non-vacuity -/
 
 example : (cycleIter .W 3 0 (fun _ => 7)).1.map peaksOf = some [2, 1, 2, 0, 2, 1, 2] := by decide
+-- sub-ranges with top > 0: peaks never go above (finer than) the top level
+example : (cycleIter .W 5 2 (fun _ => 3)).1.map peaksOf = some [4, 3, 4, 2, 4, 3, 4] := by decide
+example : (cycleIter .F 6 2 (fun _ => 0)).1.map peaksOf = some [5, 4, 3] := by decide
+example : (cycleIter .F 6 2 (fun _ => 0)).1.map countCoarse = some 4 := by decide
+example : (cycleIter .V 6 2 (fun _ => 0)).1.map countCoarse = some 1 := by decide
+example : (cycleIter .W 7 3 (fun _ => 0)).1.map countCoarse = some 16 := by decide
 example : (cycleIter .F 4 0 (fun _ => 0)).1.map peaksOf = some [3, 2, 1] := by decide
 example : (cycleIter .F 4 0 (fun _ => 0)).1.map countCoarse = some 4 := by decide
 example : cgcOmega 3 0 = 1 ∧ cgcOmega 3 2 = 3 / 2 := by constructor <;> norm_num [cgcOmega]
